@@ -212,6 +212,14 @@ CHECKS = {
         note="Partial: the parser-level state is outside the model (end-to-end only). A leak (statement beginning with `[` indexed the previous value) was repaired by a fix: commit. Known finding K31: an empty brace block inside a conditional ends it early. Fragments reported when analysed alone are skipped (recovery effects).",
         technique="Lean 4 proof (induction over operation sequences) + metamorphic end-to-end insertion / appending comparison",
     ),
+    "C15": dict(
+        category="proof",
+        text="Propagation core proved in Lean on the model of propagationForCalledTo: replaying the call sites of a user method — ANY non-empty list of plain argument types, in any round, from an empty slot or from the single-class slot an earlier round left — leaves a parameter slot that covers the type of every call site (covers_all_sites, covers_all_sites_next_round: invariant `Stable` + induction over the site list; lemmas for the replace / match / unify / append branches); a union slot inferred from calls only accumulates. "
+             "The model is tied by the `prop` differential stream through a verif hook. Return unification, header parsing, keyword/default binding and the placement of calls before/after the definition are checked end-to-end on generated programs (1-4 methods with positional, default and keyword parameters, 1-5 call sites each, inside other methods too): parameter dbtp covers all site classes, call results have the body's result type including explicit returns, body operations defined for none / all of the parameter's classes are reported / silent.",
+        design="DESIGN.md §4 C15",
+        note="Partial: union-typed call-site arguments and defaulted slots are covered by the stream, not by the covering theorem (plain scalar sites). Known finding K32: keyword parameter not widened for a call placed before the definition of a method with two or more positional parameters.",
+        technique="Lean 4 proof (invariant + induction over call-site lists) + differential stream over a hook + end-to-end reference comparison",
+    ),
     "C17": dict(
         category="proof",
         text="Scope core on the Go-map model of TFrame: Lean proves for EVERY sequence of writes performed inside a block that a key absent from the entry snapshot (and not written back) is absent after the block, that outer variables keep what the block assigned to them, that a shadowed variable gets its saved value back (distinct restore keys), "
